@@ -192,10 +192,10 @@ func ParseMD(md string) []Blk {
 		case *ast.Blockquote:
 			t, f := inlineOf(x, src)
 			out = append(out, Blk{Kind: "q", Text: t, Flags: f})
-		case *ast.FencedCodeBlock:
-			out = append(out, Blk{Kind: "code", Text: linesOf(x, src)})
+		case *ast.FencedCodeBlock: // the text without the terminator of its last line
+			out = append(out, Blk{Kind: "code", Text: strings.TrimSuffix(linesOf(x, src), "\n")})
 		case *ast.CodeBlock:
-			out = append(out, Blk{Kind: "code", Text: linesOf(x, src)})
+			out = append(out, Blk{Kind: "code", Text: strings.TrimSuffix(linesOf(x, src), "\n")})
 		case *extast.Table:
 			b := Blk{Kind: "table"}
 			for row := x.FirstChild(); row != nil; row = row.NextSibling() {
